@@ -40,6 +40,26 @@ const IMPORTS: &str = "From Verif Require Import Lib.Obs Model.Shutdown.";
 enum Kind {
     Unary,
     Stream,
+    /// the client streams `reqs` (gated one by one), the handler answers once after the last
+    ClientStream,
+    /// both directions stream: response message i is produced after request message i was read
+    Bidi,
+}
+impl Kind {
+    fn name(&self) -> &'static str {
+        match self {
+            Kind::Unary => "unary",
+            Kind::Stream => "stream",
+            Kind::ClientStream => "client_stream",
+            Kind::Bidi => "bidi",
+        }
+    }
+    fn single_response(&self) -> bool {
+        matches!(self, Kind::Unary | Kind::ClientStream)
+    }
+    fn streams_requests(&self) -> bool {
+        matches!(self, Kind::ClientStream | Kind::Bidi)
+    }
 }
 #[derive(Clone, Debug)]
 struct CallSpec {
@@ -50,13 +70,23 @@ struct CallSpec {
     msgs: Vec<Vec<u8>>,
     /// None = OK
     status: Option<(i32, String)>,
+    /// request messages of a client-streaming / bidirectional call (the handler checks them)
+    reqs: Vec<Vec<u8>>,
 }
 impl CallSpec {
     /// number of gated handler phases
     fn phases(&self) -> usize {
         match self.kind {
-            Kind::Unary => 1,
-            Kind::Stream => self.msgs.len() + 2,
+            Kind::Unary | Kind::ClientStream => 1,
+            Kind::Stream | Kind::Bidi => self.msgs.len() + 2,
+        }
+    }
+    /// number of gated client phases (each request message, then the end of the request stream)
+    fn client_phases(&self) -> usize {
+        if self.kind.streams_requests() {
+            self.reqs.len() + 1
+        } else {
+            0
         }
     }
 }
@@ -68,6 +98,8 @@ struct ConnSpec {
     /// largest read/write the server / client transport performs at once (0 = unlimited)
     chunk_srv: usize,
     chunk_cli: usize,
+    /// the client opens the connection as soon as it is offered (otherwise with its first call)
+    eager: bool,
 }
 #[derive(Clone, Debug, PartialEq)]
 enum Act {
@@ -77,6 +109,8 @@ enum Act {
     Call(u32),
     /// let the handler of call k pass its next phase
     Gate(u32),
+    /// let the client of call k send its next request message / end its request stream
+    CGate(u32),
     /// fire the shutdown signal
     Signal,
     /// the listener ends (incoming stream yields None)
@@ -98,9 +132,10 @@ struct Scenario {
 
 fn scn_json(s: &Scenario) -> Value {
     json!({
-        "conns": s.conns.iter().map(|c| json!([c.c, c.buf, c.chunk_srv, c.chunk_cli])).collect::<Vec<_>>(),
+        "conns": s.conns.iter().map(|c| json!([c.c, c.buf, c.chunk_srv, c.chunk_cli, c.eager as u32])).collect::<Vec<_>>(),
         "calls": s.calls.iter().map(|c| json!({
-            "k": c.k, "c": c.c, "kind": if c.kind == Kind::Unary { "unary" } else { "stream" },
+            "k": c.k, "c": c.c, "kind": c.kind.name(),
+            "reqs": c.reqs.iter().map(|m| hex(m)).collect::<Vec<_>>(),
             "msgs": c.msgs.iter().map(|m| hex(m)).collect::<Vec<_>>(),
             "status": c.status.as_ref().map(|(c, m)| json!([c, m])),
         })).collect::<Vec<_>>(),
@@ -108,6 +143,7 @@ fn scn_json(s: &Scenario) -> Value {
             Act::Offer(c) => json!(["offer", c]),
             Act::Call(k) => json!(["call", k]),
             Act::Gate(k) => json!(["gate", k]),
+            Act::CGate(k) => json!(["cgate", k]),
             Act::Signal => json!(["signal"]),
             Act::EndIncoming => json!(["end_incoming"]),
             Act::IncomingError(t) => json!(["incoming_error", *t as u32]),
@@ -122,11 +158,18 @@ fn scn_from_json(v: &Value) -> Scenario {
     Scenario {
         conns: v["conns"].as_array().unwrap().iter().map(|c| ConnSpec {
             c: u(&c[0]) as u32, buf: u(&c[1]) as usize, chunk_srv: u(&c[2]) as usize, chunk_cli: u(&c[3]) as usize,
+            eager: c.get(4).and_then(|x| x.as_u64()).unwrap_or(0) == 1,
         }).collect(),
         calls: v["calls"].as_array().unwrap().iter().map(|c| CallSpec {
             k: u(&c["k"]) as u32,
             c: u(&c["c"]) as u32,
-            kind: if c["kind"] == "unary" { Kind::Unary } else { Kind::Stream },
+            kind: match c["kind"].as_str().unwrap_or("") {
+                "unary" => Kind::Unary,
+                "client_stream" => Kind::ClientStream,
+                "bidi" => Kind::Bidi,
+                _ => Kind::Stream,
+            },
+            reqs: c["reqs"].as_array().map(|a| a.iter().map(|m| unhex(m.as_str().unwrap())).collect()).unwrap_or_default(),
             msgs: c["msgs"].as_array().unwrap().iter().map(|m| unhex(m.as_str().unwrap())).collect(),
             status: if c["status"].is_null() { None } else {
                 Some((c["status"][0].as_i64().unwrap() as i32, c["status"][1].as_str().unwrap().to_string()))
@@ -138,6 +181,7 @@ fn scn_from_json(v: &Value) -> Scenario {
                 "offer" => Act::Offer(arg()),
                 "call" => Act::Call(arg()),
                 "gate" => Act::Gate(arg()),
+                "cgate" => Act::CGate(arg()),
                 "signal" => Act::Signal,
                 "end_incoming" => Act::EndIncoming,
                 "incoming_error" => Act::IncomingError(arg() == 1),
@@ -171,8 +215,13 @@ enum Ev {
     ServeReturned(bool),
     /// nothing moved for 30 virtual seconds after every handler had been let through
     Quiet,
+    /// the server wrote a GOAWAY frame on connection c; true = the final one (a real last stream
+    /// id), false = the announcement (last stream id 2^31-1) that graceful_shutdown starts with
+    Goaway(u32, bool),
     // marks written by the script driver (not server events; the oracle relates positions to them)
     MarkSignalFired,
+    /// the first quiescent point after the signal was fired
+    MarkIdleAfterFire,
     MarkOffered(u32),
     MarkClientDropped(u32),
 }
@@ -180,6 +229,7 @@ struct Shared {
     log: Mutex<Vec<Ev>>,
     calls: HashMap<u32, CallSpec>,
     gates: HashMap<u32, Arc<Semaphore>>,
+    cgates: HashMap<u32, Arc<Semaphore>>,
 }
 impl Shared {
     fn log(&self, e: Ev) {
@@ -233,6 +283,57 @@ struct FragIo {
     cid: u32,
     /// server end only: set when the accept loop received it; its drop is then logged
     accepted: Option<Arc<Shared>>,
+    /// server end only: HTTP/2 frame-header scanner over the bytes the server writes
+    wire: WireScan,
+}
+/// independent scanner of the server's outgoing byte stream (which starts with a frame: a server
+/// sends no preface): 9-byte frame headers, then the payload; reports GOAWAY frames
+#[derive(Default)]
+struct WireScan {
+    hdr: Vec<u8>,
+    /// payload bytes of the current frame still to come
+    left: usize,
+    /// GOAWAY payload prefix being collected (last stream id)
+    goaway: Option<Vec<u8>>,
+}
+impl WireScan {
+    /// feed written bytes; returns for every GOAWAY seen whether it is the final one
+    fn feed(&mut self, mut b: &[u8]) -> Vec<bool> {
+        let mut out = vec![];
+        while !b.is_empty() {
+            if self.left == 0 && self.hdr.len() < 9 {
+                let n = (9 - self.hdr.len()).min(b.len());
+                self.hdr.extend_from_slice(&b[..n]);
+                b = &b[n..];
+                if self.hdr.len() == 9 {
+                    self.left = ((self.hdr[0] as usize) << 16) | ((self.hdr[1] as usize) << 8) | self.hdr[2] as usize;
+                    self.goaway = if self.hdr[3] == 7 { Some(vec![]) } else { None };
+                    if self.left == 0 {
+                        self.hdr.clear();
+                    }
+                }
+                continue;
+            }
+            let n = self.left.min(b.len());
+            if let Some(g) = &mut self.goaway {
+                if g.len() < 4 {
+                    let m = (4 - g.len()).min(n);
+                    g.extend_from_slice(&b[..m]);
+                    if g.len() == 4 {
+                        let last = u32::from_be_bytes([g[0], g[1], g[2], g[3]]) & 0x7fff_ffff;
+                        out.push(last != 0x7fff_ffff);
+                    }
+                }
+            }
+            b = &b[n..];
+            self.left -= n;
+            if self.left == 0 {
+                self.hdr.clear();
+                self.goaway = None;
+            }
+        }
+        out
+    }
 }
 impl AsyncRead for FragIo {
     fn poll_read(self: Pin<&mut Self>, cx: &mut Context<'_>, buf: &mut ReadBuf<'_>) -> Poll<io::Result<()>> {
@@ -251,7 +352,13 @@ impl AsyncWrite for FragIo {
     fn poll_write(self: Pin<&mut Self>, cx: &mut Context<'_>, data: &[u8]) -> Poll<io::Result<usize>> {
         let me = self.get_mut();
         let n = if me.chunk == 0 { data.len() } else { data.len().min(me.chunk) };
-        Pin::new(&mut me.inner).poll_write(cx, &data[..n])
+        let r = Pin::new(&mut me.inner).poll_write(cx, &data[..n]);
+        if let (Poll::Ready(Ok(w)), Some(sh)) = (&r, &me.accepted) {
+            for fin in me.wire.feed(&data[..*w]) {
+                sh.log(Ev::Goaway(me.cid, fin));
+            }
+        }
+        r
     }
     fn poll_flush(self: Pin<&mut Self>, cx: &mut Context<'_>) -> Poll<io::Result<()>> {
         Pin::new(&mut self.get_mut().inner).poll_flush(cx)
@@ -410,6 +517,81 @@ impl tonic::server::ServerStreamingService<Vec<u8>> for StreamH {
     }
 }
 
+type ReqStream = tonic::Streaming<Vec<u8>>;
+/// read the next request message and compare it with the script
+async fn expect_req(rs: &mut ReqStream, want: Option<&Vec<u8>>) -> Result<(), Status> {
+    match (rs.message().await, want) {
+        (Ok(Some(m)), Some(w)) if m == *w => Ok(()),
+        (Ok(None), None) => Ok(()),
+        (Err(e), _) => Err(Status::internal(format!("request stream failed: {}", e))),
+        _ => Err(Status::internal("request stream differs from what the client sent")),
+    }
+}
+struct ClientStreamH(CallSpec, Arc<Semaphore>);
+impl tonic::server::ClientStreamingService<Vec<u8>> for ClientStreamH {
+    type Response = Vec<u8>;
+    type Future = BoxFut<Result<Response<Vec<u8>>, Status>>;
+    fn call(&mut self, req: Request<ReqStream>) -> Self::Future {
+        let (spec, gate) = (self.0.clone(), self.1.clone());
+        Box::pin(async move {
+            let mut rs = req.into_inner();
+            for w in &spec.reqs {
+                expect_req(&mut rs, Some(w)).await?;
+            }
+            expect_req(&mut rs, None).await?;
+            pass(&gate).await;
+            match &spec.status {
+                None => Ok(Response::new(spec.msgs.first().cloned().unwrap_or_default())),
+                Some(s) => Err(mk_status(s)),
+            }
+        })
+    }
+}
+struct BidiH(CallSpec, Arc<Semaphore>);
+impl tonic::server::StreamingService<Vec<u8>> for BidiH {
+    type Response = Vec<u8>;
+    type ResponseStream = BoxStream;
+    type Future = BoxFut<Result<Response<BoxStream>, Status>>;
+    fn call(&mut self, req: Request<ReqStream>) -> Self::Future {
+        let (spec, gate) = (self.0.clone(), self.1.clone());
+        Box::pin(async move {
+            pass(&gate).await; // response headers
+            let rs = req.into_inner();
+            // state: next response index (usize::MAX = finished), requests read so far
+            let st = stream::unfold((0usize, 0usize, rs, spec, gate), |(i, mut nr, mut rs, spec, gate)| async move {
+                if i == usize::MAX {
+                    return None;
+                }
+                if i < spec.msgs.len() {
+                    if nr < spec.reqs.len() {
+                        if let Err(e) = expect_req(&mut rs, Some(&spec.reqs[nr])).await {
+                            return Some((Err(e), (usize::MAX, nr, rs, spec, gate)));
+                        }
+                        nr += 1;
+                    }
+                    pass(&gate).await;
+                    let m = spec.msgs[i].clone();
+                    Some((Ok(m), (i + 1, nr, rs, spec, gate)))
+                } else {
+                    // the rest of the request stream, its end, then the final status
+                    while nr <= spec.reqs.len() {
+                        if let Err(e) = expect_req(&mut rs, spec.reqs.get(nr)).await {
+                            return Some((Err(e), (usize::MAX, nr, rs, spec, gate)));
+                        }
+                        nr += 1;
+                    }
+                    pass(&gate).await;
+                    match &spec.status {
+                        None => None,
+                        Some(s) => Some((Err(mk_status(s)), (usize::MAX, nr, rs, spec, gate))),
+                    }
+                }
+            });
+            Ok(Response::new(Box::pin(st) as BoxStream))
+        })
+    }
+}
+
 #[derive(Clone)]
 struct Svc(Arc<Shared>);
 impl tonic::server::NamedService for Svc {
@@ -435,15 +617,16 @@ impl tower_service::Service<http::Request<tonic::body::Body>> for Svc {
         let mut guard = DoneGuard { sh: sh.clone(), c, k, complete: false };
         let spec = sh.calls.get(&k).cloned();
         let gate = sh.gates.get(&k).cloned();
-        let unary = req.uri().path() == "/verif.S/Unary";
+        let path = req.uri().path().to_string();
         Box::pin(async move {
             let resp = match (spec, gate) {
                 (Some(spec), Some(gate)) => {
                     let mut grpc = tonic::server::Grpc::new(RawCodec);
-                    if unary {
-                        grpc.unary(UnaryH(spec, gate), req).await
-                    } else {
-                        grpc.server_streaming(StreamH(spec, gate), req).await
+                    match path.as_str() {
+                        "/verif.S/Unary" => grpc.unary(UnaryH(spec, gate), req).await,
+                        "/verif.S/ClientStream" => grpc.client_streaming(ClientStreamH(spec, gate), req).await,
+                        "/verif.S/Bidi" => grpc.streaming(BidiH(spec, gate), req).await,
+                        _ => grpc.server_streaming(StreamH(spec, gate), req).await,
                     }
                 }
                 _ => Status::unimplemented("unknown call").into_http::<tonic::body::Body>(),
@@ -467,37 +650,69 @@ enum Outcome {
     NotStarted,
     Panicked,
 }
-async fn client_call(ch: Channel, spec: CallSpec) -> Outcome {
+fn gated_requests(reqs: Vec<Vec<u8>>, cgate: Arc<Semaphore>) -> impl Stream<Item = Vec<u8>> + Send + 'static {
+    stream::unfold((0usize, reqs, cgate), |(i, reqs, cgate)| async move {
+        if i < reqs.len() {
+            pass(&cgate).await;
+            let m = reqs[i].clone();
+            Some((m, (i + 1, reqs, cgate)))
+        } else if i == reqs.len() {
+            pass(&cgate).await; // end of the request stream
+            None
+        } else {
+            None
+        }
+    })
+}
+async fn collect(r: Result<Response<tonic::Streaming<Vec<u8>>>, Status>) -> Outcome {
+    match r {
+        Err(s) => Outcome::Done(vec![], s.code() as i32, s.message().to_string()),
+        Ok(r) => {
+            let mut st = r.into_inner();
+            let mut msgs = vec![];
+            loop {
+                match st.message().await {
+                    Ok(Some(m)) => msgs.push(m),
+                    Ok(None) => return Outcome::Done(msgs, 0, String::new()),
+                    Err(s) => return Outcome::Done(msgs, s.code() as i32, s.message().to_string()),
+                }
+            }
+        }
+    }
+}
+fn single(r: Result<Response<Vec<u8>>, Status>) -> Outcome {
+    match r {
+        Ok(r) => Outcome::Done(vec![r.into_inner()], 0, String::new()),
+        Err(s) => Outcome::Done(vec![], s.code() as i32, s.message().to_string()),
+    }
+}
+async fn client_call(ch: Channel, spec: CallSpec, cgate: Arc<Semaphore>) -> Outcome {
     let mut g = tonic::client::Grpc::new(ch);
     if let Err(e) = g.ready().await {
         return Outcome::Done(vec![], Code::Unavailable as i32, format!("not ready: {}", e));
     }
-    let mut req = Request::new(vec![spec.k as u8]);
-    req.metadata_mut().insert("x-k", spec.k.to_string().parse().unwrap());
+    let key: tonic::metadata::MetadataValue<_> = spec.k.to_string().parse().unwrap();
+    let path = |p: &'static str| http::uri::PathAndQuery::from_static(p);
     match spec.kind {
         Kind::Unary => {
-            let path = http::uri::PathAndQuery::from_static("/verif.S/Unary");
-            match g.unary::<Vec<u8>, Vec<u8>, _>(req, path, RawCodec).await {
-                Ok(r) => Outcome::Done(vec![r.into_inner()], 0, String::new()),
-                Err(s) => Outcome::Done(vec![], s.code() as i32, s.message().to_string()),
-            }
+            let mut req = Request::new(vec![spec.k as u8]);
+            req.metadata_mut().insert("x-k", key);
+            single(g.unary::<Vec<u8>, Vec<u8>, _>(req, path("/verif.S/Unary"), RawCodec).await)
         }
         Kind::Stream => {
-            let path = http::uri::PathAndQuery::from_static("/verif.S/Stream");
-            match g.server_streaming::<Vec<u8>, Vec<u8>, _>(req, path, RawCodec).await {
-                Err(s) => Outcome::Done(vec![], s.code() as i32, s.message().to_string()),
-                Ok(r) => {
-                    let mut st = r.into_inner();
-                    let mut msgs = vec![];
-                    loop {
-                        match st.message().await {
-                            Ok(Some(m)) => msgs.push(m),
-                            Ok(None) => return Outcome::Done(msgs, 0, String::new()),
-                            Err(s) => return Outcome::Done(msgs, s.code() as i32, s.message().to_string()),
-                        }
-                    }
-                }
-            }
+            let mut req = Request::new(vec![spec.k as u8]);
+            req.metadata_mut().insert("x-k", key);
+            collect(g.server_streaming::<Vec<u8>, Vec<u8>, _>(req, path("/verif.S/Stream"), RawCodec).await).await
+        }
+        Kind::ClientStream => {
+            let mut req = Request::new(gated_requests(spec.reqs.clone(), cgate));
+            req.metadata_mut().insert("x-k", key);
+            single(g.client_streaming::<_, Vec<u8>, Vec<u8>, _>(req, path("/verif.S/ClientStream"), RawCodec).await)
+        }
+        Kind::Bidi => {
+            let mut req = Request::new(gated_requests(spec.reqs.clone(), cgate));
+            req.metadata_mut().insert("x-k", key);
+            collect(g.streaming::<_, Vec<u8>, Vec<u8>, _>(req, path("/verif.S/Bidi"), RawCodec).await).await
         }
     }
 }
@@ -523,6 +738,7 @@ async fn run_case(scn: Scenario) -> RunResult {
         log: Mutex::new(vec![]),
         calls: scn.calls.iter().map(|c| (c.k, c.clone())).collect(),
         gates: scn.calls.iter().map(|c| (c.k, Arc::new(Semaphore::new(0)))).collect(),
+        cgates: scn.calls.iter().map(|c| (c.k, Arc::new(Semaphore::new(0)))).collect(),
     });
     let (inc_tx, inc_rx) = mpsc::unbounded_channel::<Result<FragIo, io::Error>>();
     let mut inc_tx = Some(inc_tx);
@@ -543,10 +759,12 @@ async fn run_case(scn: Scenario) -> RunResult {
         sh2.log(Ev::ServeReturned(r.is_ok()));
     });
 
-    let mut channels: HashMap<u32, Channel> = HashMap::new();
+    let mut channels: HashMap<u32, tokio::sync::watch::Receiver<Option<Result<Channel, String>>>> = HashMap::new();
     let mut tasks: BTreeMap<u32, tokio::task::JoinHandle<Outcome>> = BTreeMap::new();
     let mut outcomes: BTreeMap<u32, Outcome> = BTreeMap::new();
     let mut shutdown_begun = false;
+    let mut fired_unsettled = false;
+    let mut eager_tasks: HashMap<u32, tokio::task::JoinHandle<()>> = HashMap::new();
     let mut spoke: HashMap<u32, Arc<std::sync::atomic::AtomicBool>> = HashMap::new();
     for act in &scn.script {
         match act {
@@ -555,28 +773,56 @@ async fn run_case(scn: Scenario) -> RunResult {
                 let (cli, srv) = tokio::io::duplex(spec.buf);
                 sh.log(Ev::MarkOffered(*c));
                 if let Some(tx) = &inc_tx {
-                    let _ = tx.send(Ok(FragIo { inner: srv, chunk: spec.chunk_srv, cid: *c, accepted: None }));
+                    let _ = tx.send(Ok(FragIo { inner: srv, chunk: spec.chunk_srv, cid: *c, accepted: None, wire: WireScan::default() }));
                 }
-                let slot = Arc::new(Mutex::new(Some(FragIo { inner: cli, chunk: spec.chunk_cli, cid: *c, accepted: None })));
+                let slot = Arc::new(Mutex::new(Some(FragIo { inner: cli, chunk: spec.chunk_cli, cid: *c, accepted: None, wire: WireScan::default() })));
                 let flag = Arc::new(std::sync::atomic::AtomicBool::new(false));
                 spoke.insert(*c, flag.clone());
-                let ch = Endpoint::from_static("http://verif.invalid").connect_with_connector_lazy(tower::service_fn(
-                    move |_: http::Uri| {
-                        let io = slot.lock().unwrap().take();
-                        flag.store(true, std::sync::atomic::Ordering::SeqCst);
-                        async move {
-                            io.map(TokioIo::new)
-                                .ok_or_else(|| io::Error::new(io::ErrorKind::ConnectionRefused, "no more connections"))
-                        }
-                    },
-                ));
-                channels.insert(*c, ch);
+                let connector = tower::service_fn(move |_: http::Uri| {
+                    let io = slot.lock().unwrap().take();
+                    flag.store(true, std::sync::atomic::Ordering::SeqCst);
+                    async move {
+                        io.map(TokioIo::new)
+                            .ok_or_else(|| io::Error::new(io::ErrorKind::ConnectionRefused, "no more connections"))
+                    }
+                });
+                let ep = Endpoint::from_static("http://verif.invalid");
+                let (tx, rx) = tokio::sync::watch::channel::<Option<Result<Channel, String>>>(None);
+                if spec.eager {
+                    // open the connection now (HTTP/2 preface and settings go out at once)
+                    eager_tasks.insert(
+                        *c,
+                        tokio::spawn(async move {
+                            let r = ep.connect_with_connector(connector).await.map_err(|e| e.to_string());
+                            let _ = tx.send(Some(r));
+                            std::future::pending::<()>().await;
+                        }),
+                    );
+                } else {
+                    let _ = tx.send(Some(Ok(ep.connect_with_connector_lazy(connector))));
+                    eager_tasks.insert(*c, tokio::spawn(async move { tx.closed().await }));
+                }
+                channels.insert(*c, rx);
             }
             Act::Call(k) => {
                 let spec = sh.calls[k].clone();
                 match channels.get(&spec.c) {
                     Some(ch) => {
-                        tasks.insert(*k, tokio::spawn(client_call(ch.clone(), spec)));
+                        let cg = sh.cgates[k].clone();
+                        let mut rx = ch.clone();
+                        tasks.insert(
+                            *k,
+                            tokio::spawn(async move {
+                                let got = match rx.wait_for(|v| v.is_some()).await {
+                                    Ok(v) => v.clone().unwrap(),
+                                    Err(_) => Err("client gone".to_string()),
+                                };
+                                match got {
+                                    Ok(ch) => client_call(ch, spec, cg).await,
+                                    Err(e) => Outcome::Done(vec![], Code::Unavailable as i32, format!("connect failed: {}", e)),
+                                }
+                            }),
+                        );
                     }
                     None => {
                         outcomes.insert(*k, Outcome::NotStarted);
@@ -584,8 +830,12 @@ async fn run_case(scn: Scenario) -> RunResult {
                 }
             }
             Act::Gate(k) => sh.gates[k].add_permits(1),
+            Act::CGate(k) => sh.cgates[k].add_permits(1),
             Act::Signal => {
-                sh.log(Ev::MarkSignalFired);
+                if sig_tx.is_some() {
+                    sh.log(Ev::MarkSignalFired);
+                    fired_unsettled = true;
+                }
                 shutdown_begun = true;
                 if let Some(t) = sig_tx.take() {
                     let _ = t.send(());
@@ -604,17 +854,27 @@ async fn run_case(scn: Scenario) -> RunResult {
             Act::DropClient(c) => {
                 sh.log(Ev::MarkClientDropped(*c));
                 channels.remove(c);
+                if let Some(h) = eager_tasks.remove(c) {
+                    h.abort();
+                }
                 for spec in scn.calls.iter().filter(|s| s.c == *c) {
                     if let Some(h) = tasks.get(&spec.k) {
                         h.abort();
                     }
                 }
             }
-            Act::Settle => settle().await,
+            Act::Settle => {
+                settle().await;
+                if fired_unsettled {
+                    fired_unsettled = false;
+                    sh.log(Ev::MarkIdleAfterFire);
+                }
+            }
         }
     }
     if !shutdown_begun {
         sh.log(Ev::MarkSignalFired);
+        fired_unsettled = true;
         if let Some(t) = sig_tx.take() {
             let _ = t.send(());
         }
@@ -624,9 +884,17 @@ async fn run_case(scn: Scenario) -> RunResult {
     }
     // drain: open the remaining gates one phase at a time
     let rounds = scn.calls.iter().map(|c| c.phases()).max().unwrap_or(0) + 1;
+    let rounds = rounds.max(scn.calls.iter().map(|c| c.client_phases()).max().unwrap_or(0) + 1);
     for _ in 0..rounds {
         settle().await;
+        if fired_unsettled {
+            fired_unsettled = false;
+            sh.log(Ev::MarkIdleAfterFire);
+        }
         for g in sh.gates.values() {
+            g.add_permits(1);
+        }
+        for g in sh.cgates.values() {
             g.add_permits(1);
         }
     }
@@ -656,6 +924,9 @@ async fn run_case(scn: Scenario) -> RunResult {
             sh.log(Ev::MarkClientDropped(c));
         }
         channels.clear();
+        for (_, h) in eager_tasks.drain() {
+            h.abort();
+        }
         settle().await;
         serve_returned_finally = tokio::time::timeout(Duration::from_secs(30), &mut serve_h).await.is_ok();
     }
@@ -669,6 +940,7 @@ async fn run_case(scn: Scenario) -> RunResult {
         outcomes.insert(k, o);
     }
     drop(kept_sig_tx);
+    drop(eager_tasks);
     drop(channels);
     drop(inc_tx);
     let log = sh.log.lock().unwrap().clone();
@@ -705,7 +977,12 @@ fn abstract_trace(log: &[Ev]) -> Vec<String> {
             Ev::IncomingEnd => out.push("EIncomingEnd".into()),
             Ev::IncomingErr => out.push("EIncomingErr".into()),
             Ev::CallStart(c, k) => out.push(format!("ECallStart {} {}", c, k)),
-            Ev::CallDone(c, k, true) => out.push(format!("ECallDone {} {}", c, k)),
+            Ev::CallDone(c, k, true) => {
+                // after its caller and the connection are gone the handler's end is part of the abort
+                if !(dropped_clients.contains(c) && closed.contains(c)) {
+                    out.push(format!("ECallDone {} {}", c, k));
+                }
+            }
             Ev::CallDone(c, k, false) => {
                 if dropped_clients.contains(c) {
                     // cancelled by its own caller: leaves the in-flight set before the connection
@@ -727,10 +1004,14 @@ fn abstract_trace(log: &[Ev]) -> Vec<String> {
             }
             Ev::ServeReturned(_) => out.push("EServeReturned".into()),
             Ev::Quiet => out.push("EQuiet".into()),
+            Ev::Goaway(c, false) => out.push(format!("EGoaway {}", c)),
+            Ev::Goaway(c, true) => out.push(format!("EGoawayFinal {}", c)),
+            Ev::MarkSignalFired => out.push("ESignalFired".into()),
+            Ev::MarkIdleAfterFire => out.push("EIdleAfterFire".into()),
             Ev::MarkClientDropped(c) => {
                 dropped_clients.insert(*c);
             }
-            Ev::MarkSignalFired | Ev::MarkOffered(_) => {}
+            Ev::MarkOffered(_) => {}
         }
     }
     out
@@ -763,6 +1044,12 @@ fn oracle(scn: &Scenario, r: &RunResult) -> Option<String> {
     }
     if log.iter().filter(|e| **e == Ev::Signal).count() > 1 {
         return Some("the signal was observed twice".into());
+    }
+    // a fired signal is observed by the time the server is idle again
+    if let Some(i) = pos(log, &Ev::MarkIdleAfterFire) {
+        if !log[..i].iter().any(|e| matches!(e, Ev::Signal | Ev::IncomingEnd)) {
+            return Some("the signal had fired and the server had gone idle, but the accept loop had not observed it".into());
+        }
     }
     // nothing is accepted once the accept loop saw the signal (or the end of the listener)
     let stop_at = log.iter().position(|e| matches!(e, Ev::Signal | Ev::IncomingEnd));
@@ -885,6 +1172,7 @@ fn push_case(out: &mut Out, kind: &str, scn: &Scenario) {
                 Act::Offer(_) => "offer",
                 Act::Call(_) => "call",
                 Act::Gate(_) => "gate",
+                Act::CGate(_) => "cgate",
                 Act::Signal => "signal",
                 Act::EndIncoming => "end_incoming",
                 Act::IncomingError(_) => "incoming_error",
@@ -933,12 +1221,62 @@ fn push_case(out: &mut Out, kind: &str, scn: &Scenario) {
                 }
             }
             out.hist("inflight_when_signal_observed", inflight_at_signal);
+            if let (Some(f), Some(o)) = (pos(&r.log, &Ev::MarkSignalFired), pos(&r.log, &Ev::Signal)) {
+                let acc = r.log[f..o].iter().filter(|e| matches!(e, Ev::Accept(_))).count();
+                let offered = r.log[f..o].iter().filter(|e| matches!(e, Ev::MarkOffered(_))).count();
+                if kind.contains("signal_vs_accept") {
+                    // connections offered in the same scheduler tick as the signal
+                    let sp = scn.script.iter().position(|a| *a == Act::Signal).unwrap_or(0);
+                    let lo = scn.script[..sp].iter().rposition(|a| *a == Act::Settle).map(|i| i + 1).unwrap_or(0);
+                    let hi = scn.script[sp..].iter().position(|a| *a == Act::Settle).map(|i| sp + i).unwrap_or(scn.script.len());
+                    let ready = scn.script[lo..hi].iter().filter(|a| matches!(a, Act::Offer(_))).count();
+                    let acc_tick = {
+                        // accepts of those connections, before or after the observation
+                        let offered: BTreeSet<u32> = scn.script[lo..hi].iter().filter_map(|a| if let Act::Offer(c) = a { Some(*c) } else { None }).collect();
+                        r.log.iter().filter(|e| matches!(e, Ev::Accept(c) if offered.contains(c))).count()
+                    };
+                    out.hist("race:ready_with_signal=>accepted", format!("{:02}=>{:02}", ready, acc_tick));
+                    out.hist("race:accepts_between_firing_and_observation", acc);
+                } else {
+                    out.hist("accepts_between_firing_and_observation", acc);
+                }
+                let _ = offered;
+            }
+            for e in &r.log {
+                if let Ev::Goaway(_, fin) = e {
+                    out.hist("goaway_frames", if *fin { "final" } else { "announce" });
+                }
+            }
+            {
+                // calls that hyper admitted after the GOAWAY announcement (the two-GOAWAY window)
+                let mut ann: BTreeSet<u32> = BTreeSet::new();
+                let mut n = 0;
+                for e in &r.log {
+                    match e {
+                        Ev::Goaway(c, false) => {
+                            ann.insert(*c);
+                        }
+                        Ev::CallStart(c, _) if ann.contains(c) => n += 1,
+                        _ => {}
+                    }
+                }
+                out.hist("calls_admitted_after_goaway_announcement", n);
+                let told_before_signal = match stop {
+                    Some(s) => r.log[..s].iter().any(|e| matches!(e, Ev::Goaway(_, false))),
+                    None => false,
+                };
+                out.hist("goaway_before_signal_observed(max_connection_age)", told_before_signal);
+            }
+            for c in &scn.calls {
+                out.hist("call_kind", c.kind.name());
+            }
             out.hist("accepted_calls", accepted.len());
             out.hist("trace_len", tr.len());
             let refused = scn.calls.iter().filter(|s| !accepted.contains(&s.k)).count();
             out.hist("calls_not_accepted", refused);
             let model = format!(
-                "(obs_shutdown {} {} {})",
+                "(obs_shutdown {} {} {} {})",
+                coq_bool(scn.max_age_ms.is_some()),
                 coq_list(&tr, |e| e.clone()),
                 coq_list(&scn.calls, coq_call),
                 coq_list(&aborted, |k| k.to_string()),
@@ -964,7 +1302,27 @@ fn push_case(out: &mut Out, kind: &str, scn: &Scenario) {
 
 // ------------------------------------------------------------------ generators
 fn conn(c: u32, buf: usize, chunk_srv: usize, chunk_cli: usize) -> ConnSpec {
-    ConnSpec { c, buf, chunk_srv, chunk_cli }
+    ConnSpec { c, buf, chunk_srv, chunk_cli, eager: true }
+}
+fn cstream(k: u32, c: u32, nreq: usize, status: Option<(i32, &str)>) -> CallSpec {
+    CallSpec {
+        k,
+        c,
+        kind: Kind::ClientStream,
+        msgs: if status.is_none() { vec![vec![50 + k as u8, nreq as u8]] } else { vec![] },
+        status: status.map(|(c, m)| (c, m.to_string())),
+        reqs: (0..nreq).map(|i| vec![k as u8, i as u8, 9, 9]).collect(),
+    }
+}
+fn bidi(k: u32, c: u32, nreq: usize, n: usize, status: Option<(i32, &str)>) -> CallSpec {
+    CallSpec {
+        k,
+        c,
+        kind: Kind::Bidi,
+        msgs: (0..n).map(|i| vec![k as u8, i as u8, 8]).collect(),
+        status: status.map(|(c, m)| (c, m.to_string())),
+        reqs: (0..nreq).map(|i| vec![k as u8, i as u8, 9]).collect(),
+    }
 }
 fn unary(k: u32, c: u32, status: Option<(i32, &str)>) -> CallSpec {
     CallSpec {
@@ -973,6 +1331,7 @@ fn unary(k: u32, c: u32, status: Option<(i32, &str)>) -> CallSpec {
         kind: Kind::Unary,
         msgs: if status.is_none() { vec![vec![100 + k as u8, 1, 2]] } else { vec![] },
         status: status.map(|(c, m)| (c, m.to_string())),
+        reqs: vec![],
     }
 }
 fn streamc(k: u32, c: u32, n: usize, status: Option<(i32, &str)>) -> CallSpec {
@@ -982,13 +1341,38 @@ fn streamc(k: u32, c: u32, n: usize, status: Option<(i32, &str)>) -> CallSpec {
         kind: Kind::Stream,
         msgs: (0..n).map(|i| vec![k as u8, i as u8, 7]).collect(),
         status: status.map(|(c, m)| (c, m.to_string())),
+        reqs: vec![],
     }
 }
-/// the steps of one call in script order: start, then one gate per handler phase
+/// the steps of one call in script order: start, then one gate per handler phase and one per
+/// client phase, alternating (client first)
 fn call_steps(spec: &CallSpec) -> Vec<Act> {
     let mut v = vec![Act::Call(spec.k)];
-    for _ in 0..spec.phases() {
-        v.push(Act::Gate(spec.k));
+    let (mut s, mut c) = (spec.phases(), spec.client_phases());
+    while s > 0 || c > 0 {
+        if c > 0 {
+            v.push(Act::CGate(spec.k));
+            c -= 1;
+        }
+        if s > 0 {
+            v.push(Act::Gate(spec.k));
+            s -= 1;
+        }
+    }
+    v
+}
+/// the same with the server and client gates merged in a random order
+fn call_steps_rand(r: &mut Rng, spec: &CallSpec) -> Vec<Act> {
+    let mut v = vec![Act::Call(spec.k)];
+    let (mut s, mut c) = (spec.phases(), spec.client_phases());
+    while s > 0 || c > 0 {
+        if c > 0 && (s == 0 || r.chance(1, 2)) {
+            v.push(Act::CGate(spec.k));
+            c -= 1;
+        } else {
+            v.push(Act::Gate(spec.k));
+            s -= 1;
+        }
     }
     v
 }
@@ -1025,7 +1409,7 @@ fn with_signal(conns: &[ConnSpec], calls: &[CallSpec], steps: &[Act], at: usize,
 }
 /// a random interleaving of the per-call step sequences (order inside a call kept)
 fn interleave(r: &mut Rng, calls: &[CallSpec]) -> Vec<Act> {
-    let mut seqs: Vec<std::collections::VecDeque<Act>> = calls.iter().map(|c| call_steps(c).into()).collect();
+    let mut seqs: Vec<std::collections::VecDeque<Act>> = calls.iter().map(|c| call_steps_rand(r, c).into()).collect();
     let mut out = vec![];
     while seqs.iter().any(|s| !s.is_empty()) {
         let live: Vec<usize> = (0..seqs.len()).filter(|i| !seqs[*i].is_empty()).collect();
@@ -1051,7 +1435,7 @@ fn gen_conn(r: &mut Rng, c: u32, big: bool) -> ConnSpec {
             buf = 1024
         }
     }
-    conn(c, buf, cs, cc)
+    ConnSpec { c, buf, chunk_srv: cs, chunk_cli: cc, eager: r.chance(5, 6) }
 }
 fn gen_msg(r: &mut Rng, big: bool) -> Vec<u8> {
     match r.below(12) {
@@ -1080,18 +1464,35 @@ fn gen_random(r: &mut Rng, thorough: bool) -> (String, Scenario) {
         .map(|k| {
             let c = r.below(nconn as u64) as u32;
             let status = gen_status(r);
-            if r.chance(2, 5) {
-                CallSpec { k, c, kind: Kind::Unary, msgs: if status.is_none() { vec![gen_msg(r, big)] } else { vec![] }, status }
-            } else {
-                let n = r.range(0, if thorough { 4 } else { 3 }) as usize;
-                CallSpec { k, c, kind: Kind::Stream, msgs: (0..n).map(|_| gen_msg(r, big)).collect(), status }
+            let one = |r: &mut Rng, status: &Option<(i32, String)>| if status.is_none() { vec![gen_msg(r, big)] } else { vec![] };
+            let n = r.range(0, if thorough { 4 } else { 3 }) as usize;
+            let nreq = r.range(0, 3) as usize;
+            match r.below(10) {
+                0..=2 => CallSpec { k, c, kind: Kind::Unary, msgs: one(r, &status), status, reqs: vec![] },
+                3..=5 => CallSpec { k, c, kind: Kind::Stream, msgs: (0..n).map(|_| gen_msg(r, big)).collect(), status, reqs: vec![] },
+                6 | 7 => CallSpec {
+                    k,
+                    c,
+                    kind: Kind::ClientStream,
+                    msgs: one(r, &status),
+                    status,
+                    reqs: (0..nreq).map(|_| gen_msg(r, big)).collect(),
+                },
+                _ => CallSpec {
+                    k,
+                    c,
+                    kind: Kind::Bidi,
+                    msgs: (0..n).map(|_| gen_msg(r, big)).collect(),
+                    status,
+                    reqs: (0..nreq).map(|_| gen_msg(r, big)).collect(),
+                },
             }
         })
         .collect();
     let steps = interleave(r, &calls);
     let at = r.below(steps.len() as u64 + 1) as usize;
     let race = r.below(4) as u8;
-    let flavour = r.below(20);
+    let flavour = r.below(22);
     let sig = if flavour == 0 { Act::EndIncoming } else { Act::Signal };
     let mut s = with_signal(&conns, &calls, &steps, at, race, sig);
     let mut kind = "rand.signal";
@@ -1141,9 +1542,33 @@ fn gen_random(r: &mut Rng, thorough: bool) -> (String, Scenario) {
         let at = r.range(nconn as u64 + 1, s.script.len() as u64) as usize;
         s.script.insert(at, Act::DropClient(c));
         kind = "rand.client_drop";
-    } else if flavour == 8 {
+    } else if flavour == 8 || flavour == 14 || flavour == 15 {
         s.max_age_ms = Some(r.range(1, 12));
         kind = "rand.max_connection_age";
+    } else if flavour == 16 || flavour == 17 {
+        // the signal is ready while the listener has connections ready too, several times over
+        let extra = r.range(1, 5) as u32;
+        let mut ins = vec![];
+        for i in 0..extra {
+            let c = nconn + i;
+            let k = ncall + i;
+            s.conns.push(gen_conn(r, c, false));
+            s.calls.push(unary(k, c, None));
+            ins.push(Act::Offer(c));
+        }
+        for i in 0..extra {
+            ins.push(Act::Call(ncall + i));
+            ins.push(Act::Gate(ncall + i));
+        }
+        // offered in the same tick as the signal: before it, after it, or around it
+        let at = match r.below(3) {
+            0 => sig_pos,
+            _ => sig_pos + 1,
+        };
+        for (i, a) in ins.into_iter().enumerate() {
+            s.script.insert(at + i, a);
+        }
+        kind = "rand.signal_vs_accept";
     } else if flavour == 9 {
         // accept errors, before and after the signal
         for _ in 0..r.range(1, 3) {
@@ -1181,6 +1606,57 @@ fn corpus(out: &mut Out) {
     for at in 0..=steps.len() {
         for race in 0..4 {
             push_case(out, "corpus.unary_signal_everywhere", &with_signal(&c0, &un, &steps, at, race, Act::Signal));
+        }
+    }
+    // the client is still sending when the signal fires: client-streaming and bidirectional calls
+    let cs = [cstream(0, 0, 2, None)];
+    let steps = call_steps(&cs[0]);
+    for at in 0..=steps.len() {
+        for race in 0..4 {
+            push_case(out, "corpus.client_stream_signal_everywhere", &with_signal(&c0, &cs, &steps, at, race, Act::Signal));
+        }
+    }
+    let bd = [bidi(0, 0, 2, 2, Some((10, "boom")))];
+    let steps = call_steps(&bd[0]);
+    for at in 0..=steps.len() {
+        for race in 0..4 {
+            push_case(out, "corpus.bidi_signal_everywhere", &with_signal(&c0, &bd, &steps, at, race, Act::Signal));
+        }
+    }
+    // max_connection_age tells the connection long before the signal: calls in flight finish, the
+    // connection closes, the later signal finds it gone (or still draining)
+    let ag = [streamc(0, 0, 3, None), unary(1, 0, None)];
+    let steps = [call_steps(&ag[0]), call_steps(&ag[1])].concat();
+    for age in [1u64, 2, 3, 5, 8] {
+        for at in [2usize, 4, steps.len()] {
+            let mut sc = with_signal(&c0, &ag, &steps, at, 0, Act::Signal);
+            sc.max_age_ms = Some(age);
+            push_case(out, "corpus.max_connection_age", &sc);
+        }
+    }
+    // the signal and several connections become ready in the same poll of the accept loop
+    for n in [1u32, 2, 4, 8] {
+        for rep in 0..6 {
+            let mut conns = vec![conn(0, 65536, 0, 0)];
+            let mut calls = vec![streamc(0, 0, 1, None)];
+            let mut script = vec![Act::Offer(0), Act::Settle, Act::Call(0), Act::Settle, Act::Gate(0), Act::Settle];
+            if rep % 2 == 0 {
+                script.push(Act::Signal);
+            }
+            for i in 1..=n {
+                conns.push(conn(i, 65536, 0, 0));
+                calls.push(unary(i, i, None));
+                script.push(Act::Offer(i));
+            }
+            if rep % 2 == 1 {
+                script.push(Act::Signal);
+            }
+            for i in 1..=n {
+                script.push(Act::Call(i));
+                script.push(Act::Gate(i));
+            }
+            script.push(Act::Settle);
+            push_case(out, "corpus.signal_vs_accept", &Scenario { conns, calls, script, max_age_ms: None });
         }
     }
     // error statuses survive the shutdown
@@ -1238,6 +1714,8 @@ fn enumerate(out: &mut Out, r: &mut Rng, thorough: bool) {
             vec![conn(0, 65536, 0, 0), conn(1, 65536, 1, 1)],
             vec![unary(0, 0, None), streamc(1, 1, 1, None), unary(2, 1, Some((3, "a%b c")))],
         ),
+        (vec![conn(0, 256, 0, 17)], vec![cstream(0, 0, 2, None), bidi(1, 0, 1, 2, None)]),
+        (vec![conn(0, 65536, 0, 0), conn(1, 1024, 3, 0)], vec![bidi(0, 0, 2, 1, Some((7, "boom"))), cstream(1, 1, 1, Some((5, "not here")))]),
     ];
     let orders = if thorough { 6 } else { 2 };
     for (conns, calls) in &systems {
